@@ -551,12 +551,20 @@ func ruleSkipSetKeyComplete(c *Check, rule string, pkgs ...string) {
 				}
 				// hit edge: comma-ok of a lookup is true and leads straight back to the loop header
 				a := engine.CondAtom(ifi.Cond, true)
-				ex, isEx := a.V.(*ssa.Extract)
-				if !isEx || ex.Index != 1 {
-					continue
+				var lk *ssa.Lookup
+				if ex, isEx := a.V.(*ssa.Extract); isEx && ex.Index == 1 {
+					if l, isLk := ex.Tuple.(*ssa.Lookup); isLk && l.CommaOk {
+						lk = l
+					}
+				} else if l, isLk := a.V.(*ssa.Lookup); isLk && !l.CommaOk {
+					// `if seen[key]` on a map[K]bool
+					if m, ok := l.X.Type().Underlying().(*types.Map); ok {
+						if b, ok := m.Elem().Underlying().(*types.Basic); ok && b.Kind() == types.Bool {
+							lk = l
+						}
+					}
 				}
-				lk, isLk := ex.Tuple.(*ssa.Lookup)
-				if !isLk || !lk.CommaOk {
+				if lk == nil {
 					continue
 				}
 				hitIdx := 0
@@ -622,7 +630,11 @@ func ruleSkipSetKeyComplete(c *Check, rule string, pkgs ...string) {
 					}
 					covered := false
 					for k := range keySrc {
-						if strings.HasPrefix(s, k+".") || strings.HasPrefix(k, s+".") && false {
+						if strings.HasPrefix(s, k+".") {
+							covered = true
+						}
+						// a node's full label is its identity: a set keyed by it covers the node
+						if strings.HasPrefix(k, s+".") && engine.TypeKey(lk.Index.Type()) == "label.TargetLabel" {
 							covered = true
 						}
 					}
